@@ -287,7 +287,10 @@ func runC06(c *Ctx) *Replay {
 	cfg := val.DefaultCfg()
 	cfg.LongProb = 80
 	cfg.LongLen = 5000
-	cfg.LadderMax = 4097
+	if c.R.Chance(1, 16) {
+		// payloads beyond 64 KiB, where stream decoders stop trusting the length prefix
+		cfg.Ladder, cfg.LadderBig = 3, 2
+	}
 	var pk *pick
 	for try := 0; try < 20; try++ {
 		pk = c.pickRecord(cfg)
@@ -415,6 +418,9 @@ func runC08(c *Ctx) *Replay {
 	cfg.LongProb = 80
 	cfg.LongLen = 2000
 	cfg.FullMsg = 40
+	if c.R.Chance(1, 16) {
+		cfg.Ladder, cfg.LadderBig = 3, 2
+	}
 	var pk *pick
 	for try := 0; try < 20; try++ {
 		pk = c.pickRecord(cfg)
@@ -514,7 +520,7 @@ func runC08(c *Ctx) *Replay {
 			sc := base
 			sc.Kind = "rfault"
 			sc.Decoder = []string{"decode", "make"}[c.R.Intn(2)]
-			sc.RFault = &simnet.ReadFault{At: k, Err: simnet.ErrorNames[c.R.Intn(len(simnet.ErrorNames))]}
+			sc.RFault = &simnet.ReadFault{At: k, Err: simnet.ReadErrorNames[c.R.Intn(len(simnet.ReadErrorNames))]}
 			sc.Sched = &simnet.Schedule{Name: "all"}
 			sc.Reader = "plain"
 			fk := "read-bare"
